@@ -234,6 +234,8 @@ def check_routes(d):
     is_all = set(sectors) == set(allvalid)
     B = data_blocks(spec)
     first_dual_nonzero = bool(B) and any(dl and c != G.neg(sym, c) for c, dl in zip(next(iter(B)), duals))
+    # does the plain (direction-blind) sum of the first stored sector differ from its signed sum?
+    unsigned_differs = bool(B) and G.signed_sum(sym, next(iter(B)), (False,) * nd) != G.signed_sum(sym, next(iter(B)), duals)
     feats = {"sym": sym, "fermionic": fermionic, "kind": kind, "ndim": nd, "odd": odd, "all_sectors": is_all,
              "identity_charge": charge == ident, "any_dual": any(duals), "dtype": dtype}
     case = Case("C16", feats)
@@ -252,7 +254,7 @@ def check_routes(d):
             # ---- A. direct construction
             if "charge" in given or B or charge == ident:
                 ckw = {"charge": charge} if "charge" in given else {}
-                f = dict(of, route="direct", first_sector_dual_nonzero=first_dual_nonzero)
+                f = dict(of, route="direct", first_sector_dual_nonzero=first_dual_nonzero, first_sector_unsigned_sum_differs=unsigned_differs)
                 if needs_oddpos_error:
                     case.must_raise("oddpos_required", f, cls, indices=mk_indices(), blocks=dict(B), **ckw, **kw)
                 else:
@@ -677,7 +679,7 @@ def gen_cases(tier, seed):
                            "fill_seed": k, "maps": ("list", "dict")[(k // 2) % 2], "charge_omitted": bool(k % 3 == 0)}
 
     # ---- seeded random part
-    n_rand = 6000 if quick else 120000
+    n_rand = 15000 if quick else 150000
     maxnd = 3 if quick else 4
     maxlen = 5 if quick else 6
     for i in range(n_rand):
